@@ -5,7 +5,8 @@
    operations [ops] (uv_read_start / uv_read_stop / uv_close / ORun raw wout: one
    uv_run(NOWAIT) iteration with the epoll mask the kernel reported, wout = POLLOUT is
    requested by a waiting uv_write, so the handle is polled also while not READING /
-   OIo ev: uv__stream_io entered directly with any mask, in any state) on a stream whose
+   OIo ev: uv__stream_io entered directly with any mask, in any state / OWrite: a write from
+   our side, whatever its outcome - it changes nothing on the read side) on a stream whose
    read()/recvmsg() answers are the list [o]; [allocs E k] is what the k-th alloc_cb
    returns, [beh E k] the API calls the k-th read callback makes; [pipe] says whether the
    stream is a uv_pipe_t (no READ_PARTIAL there since commit 34f0ffa), [is_ipc] whether
